@@ -303,6 +303,38 @@ def lattice(thorough):
                     continue          # IAS15 without forces: the step size grows without bound
                 for res in ("merge", "hardsphere"):
                     add(integrator=integ, o={}, gravity=grav, collision=coll, resolve=res, boundary="periodic", system="boxdense")
+    # cross-cutting dimensions (BUILDERS-deepen.md): each crossed with a few integrators
+    dimint = [("whfast", {"safe_mode": 0}), ("whfast", {"safe_mode": 0, "keep_unsynchronized": 1}), ("ias15", {}), ("leapfrog", {}),
+              ("mercurius", {"safe_mode": 0}), ("saba", {"safe_mode": 0}), ("bs", {}), ("janus", {"scale_pos": 1e-14, "scale_vel": 3e-15})]
+    if thorough:
+        dimint += [("trace", {}), ("eos", {"safe_mode": 0, "phi0": "lf4", "phi1": "lf"}), ("whfast", {"safe_mode": 1, "corrector": 11})]
+    for integ, o in dimint:
+        sysn = "close" if integ in ("mercurius", "trace") else "planets"
+        for extra in ({"roles": "zero_mass_active"}, {"roles": "single_active"}, {"roles": "massless_and_massive_tp"},
+                      {"variational": 3, "testparticles": 1}, {"G": 39.4784176, "softening": 1e-3}, {"dtneg": 1}, {"com": 1},
+                      {"advance": "integrate"}, {"advance": "integrate_eft0"}, {"advance": "integrate_split"}, {"advance": "integrate_reverse"},
+                      {"t0": 1.0e9}, {"cb": ["additional_forces"]}, {"cb": ["additional_forces_vel"]}, {"cb": ["heartbeat", "pre"]},
+                      {"cb": ["post"]}, {"cb": ["pre"]}, {"units": 1}, {"hashes": 1}, {"system": "hyper"}, {"dt0": 3.0}):
+            if extra.get("variational") and integ in ("mercurius", "saba", "janus", "trace", "bs"):
+                continue
+            if extra.get("dt0") and integ not in ("ias15", "bs", "mercurius", "trace"):
+                continue
+            if extra.get("dtneg") and integ == "trace":
+                continue          # F10: TRACE does not support dt < 0
+            cfg_ = dict({"integrator": integ, "o": o, "system": sysn}, **extra)
+            L.append(cfg_)
+    for integ in ("leapfrog", "ias15", "whfast"):
+        if integ != "whfast":          # WHFast segfaults when an EMPTY simulation is stepped (reported; not a persistence matter)
+            add(integrator=integ, o={}, system="n0")
+        add(integrator=integ, o={}, system="n1")
+        add(integrator=integ, o={}, system="big130")
+    add(integrator="leapfrog", o={}, system="big1030")
+    add(integrator="whfast", o={"safe_mode": 0}, system="big1030")
+    add(integrator="leapfrog", o={}, gravity="tree", collision="tree", boundary="periodic", system="rootboxes")
+    add(integrator="leapfrog", o={}, gravity="basic", collision="linetree", boundary="open", system="rootboxes")
+    add(integrator="sei", o={"OMEGA": 1.0}, collision="direct", resolve="hardsphere", system="shearsheet")
+    add(integrator="leapfrog", o={}, collision="direct", resolve="callable", system="collide")
+    add(integrator="ias15", o={}, collision="direct", resolve="callable", system="collide")
     add(integrator="whfast", o={"safe_mode": 0}, scalars=1)
     add(integrator="ias15", o={}, scalars=1, display=1)
     out = []
@@ -323,6 +355,8 @@ def build_sim(rb, cfg):
     """construct the simulation of a configuration (before any step)"""
     sim = rb.Simulation()
     sim.rand_seed = 20240930      # reb_simulation_init seeds from the clock; twins must be comparable
+    if cfg.get("units"):
+        sim.units = ("yr", "AU", "Msun")
     system = cfg.get("system", "planets")
     integ = cfg["integrator"]
     sim.integrator = integ
@@ -369,6 +403,41 @@ def build_sim(rb, cfg):
             sim.add(m=0.01 + 0.001 * i, r=0.45, x=rng.uniform(-4.5, 4.5), y=rng.uniform(-4.5, 4.5), z=rng.uniform(-4.5, 4.5),
                     vx=rng.uniform(-2, 2), vy=rng.uniform(-2, 2), vz=rng.uniform(-2, 2))
         sim.dt = 0.05
+    elif system == "hyper":
+        sim.add(m=1.0)
+        sim.add(m=1e-3, a=1.0, e=0.05, f=0.3)
+        sim.add(m=1e-5, a=-2.0, e=1.6, f=-1.0)          # unbound body on its way in
+        sim.add(m=1e-4, a=2.9, e=0.02, f=4.0)
+    elif system == "n0":
+        pass
+    elif system == "n1":
+        sim.add(m=1.0, vx=0.01)
+    elif system in ("big130", "big1030"):
+        n = 130 if system == "big130" else 1030          # crosses the allocation boundaries 128 / 1024
+        rng = SplitMix(99)
+        sim.add(m=1.0)
+        for i in range(n - 1):
+            sim.add(m=1e-9, a=1.0 + 0.01 * i, e=rng.uniform(0, 0.05), f=rng.uniform(0, 6.28), inc=rng.uniform(0, 0.02))
+    elif system == "rootboxes":
+        sim.configure_box(10.0, 2, 1, 3)                 # non-square root box layout
+        sim.G = 1.0
+        set_modules(sim, cfg)
+        rng = SplitMix(31)
+        for i in range(14):
+            sim.add(m=0.01, r=0.3, x=rng.uniform(-9, 9), y=rng.uniform(-4.5, 4.5), z=rng.uniform(-14, 14),
+                    vx=rng.uniform(-1, 1), vy=rng.uniform(-1, 1), vz=rng.uniform(-1, 1))
+        sim.particles[3].x = 10.0 - 1e-12                # (almost) on a face of the box
+        sim.dt = 0.05
+    elif system == "shearsheet":
+        sim.configure_box(2.0)
+        sim.N_ghost_x = 1; sim.N_ghost_y = 1
+        sim.gravity = "none"
+        sim.boundary = "shear"
+        sim.G = 1.0
+        sim.t = 3.7                                      # shear boundary at t != 0
+        for i in range(6):
+            sim.add(m=1e-6, r=0.01, x=0.3 * i - 0.8, y=0.25 * i - 0.7, z=0.01 * i, vx=0.01 * i, vy=-1.5 * (0.3 * i - 0.8), vz=0.002)
+        sim.dt = 0.02
     elif system == "swarm":
         rng = SplitMix(cfg.get("seed", 1))
         sim.add(m=1.0, r=0.005)
@@ -384,6 +453,31 @@ def build_sim(rb, cfg):
         sim.dt = 0.01
     else:
         raise ValueError(system)
+    if cfg.get("units"):
+        pass   # (units must be set before particles: handled at the top)
+    role = cfg.get("roles")
+    if role == "zero_mass_active":
+        sim.add(m=0.0, a=3.6, e=0.05, f=2.2)            # active body of zero mass
+    elif role == "single_active":
+        sim.N_active = 1                                 # one active body, the planets become test particles
+        sim.testparticle_type = 0
+    elif role == "massless_and_massive_tp":
+        sim.N_active = 2
+        sim.testparticle_type = 1                        # massive test particles feel each other's host only
+        sim.add(m=0.0, a=3.3, e=0.02, f=0.4)
+    if cfg.get("G") is not None:
+        sim.G = cfg["G"]
+    if cfg.get("softening") is not None:
+        sim.softening = cfg["softening"]
+    if cfg.get("com"):
+        for i in range(sim.N):                           # centre of mass away from the origin and moving
+            p_ = sim.particles[i]
+            p_.x += 3.25; p_.y -= 1.5; p_.z += 0.75; p_.vx += 0.11; p_.vy -= 0.07; p_.vz += 0.03
+    if cfg.get("hashes"):
+        for i, nm in enumerate(["sun", "mercury", "venus", "earth", "mars", "a", "b", "c"][:sim.N]):
+            sim.particles[i].hash = nm
+    if cfg.get("t0") is not None:
+        sim.t = cfg["t0"]
     tp = cfg.get("testparticles", 0)
     if tp:
         sim.N_active = sim.N
@@ -412,8 +506,15 @@ def build_sim(rb, cfg):
         va.particles[1].x = 1.0
         vb.particles[2].vy = 1.0
         vab = sim.add_variation(order=2, first_order=va, first_order_2=vb)
+    elif cfg.get("variational") == 3:
+        vt = sim.add_variation(testparticle=sim.N - 1)   # variation of one (test) particle only
+        vt.particles[0].vy = 1.0
     if cfg.get("megno"):
         sim.init_megno(seed=7)
+    if cfg.get("dtneg"):
+        sim.dt = -sim.dt
+    if cfg.get("dt0") is not None:
+        sim.dt = cfg["dt0"]                              # e.g. far too large: the first adaptive steps are rejected
     if cfg.get("scalars"):
         # every user-settable scalar of the main struct to a non-default value
         sim.G = 1.0000001
@@ -432,7 +533,6 @@ def build_sim(rb, cfg):
         sim.rand_seed = 4242
         sim.testparticle_hidewarnings = 1
         sim.opening_angle2 = 0.3
-        sim.units = ("yr", "AU", "Msun") if False else sim.units
     if cfg.get("display"):
         rb.clibrebound.reb_simulation_add_display_settings(ctypes.byref(sim))
     attach(sim, cfg)
@@ -448,15 +548,88 @@ def set_modules(sim, cfg):
         sim.collision = cfg["collision"]
 
 
+def _cb_additional_forces(reb_sim):
+    ps = reb_sim.contents.particles
+    ps[1].ax += 1e-6
+    ps[1].ay -= 2e-6
+
+
+def _cb_additional_forces_vel(reb_sim):
+    ps = reb_sim.contents.particles
+    ps[1].ax -= 1e-5 * ps[1].vx
+    ps[1].ay -= 1e-5 * ps[1].vy
+
+
+_CB_COUNT = {"heartbeat": 0, "pre": 0, "post": 0}
+
+
+def _cb_heartbeat(reb_sim):
+    _CB_COUNT["heartbeat"] += 1
+
+
+def _cb_pre(reb_sim):
+    _CB_COUNT["pre"] += 1 if reb_sim.contents.t == reb_sim.contents.t else 0     # read-only
+
+
+def _cb_post(reb_sim):
+    ps = reb_sim.contents.particles                                              # editing: a tiny drag on particle 2
+    ps[2].vx *= (1.0 - 1e-9)
+
+
+def _cb_collision(reb_sim, col):
+    return 0      # callable resolver: ignore the collision, remove nothing
+
+
 def attach(sim, cfg):
     """(re-)attach the callbacks of a configuration — the user's obligation after a load"""
     if cfg.get("collision"):
-        sim.collision_resolve = cfg.get("resolve", "merge")
+        if cfg.get("resolve") == "callable":
+            sim.collision_resolve = _cb_collision
+        else:
+            sim.collision_resolve = cfg.get("resolve", "merge")
+    for cb in cfg.get("cb", []):
+        if cb == "additional_forces":
+            sim.additional_forces = _cb_additional_forces
+        elif cb == "additional_forces_vel":
+            sim.additional_forces = _cb_additional_forces_vel
+            sim.force_is_velocity_dependent = 1
+        elif cb == "heartbeat":
+            sim.heartbeat = _cb_heartbeat
+        elif cb == "pre":
+            sim.pre_timestep_modifications = _cb_pre
+        elif cb == "post":
+            sim.post_timestep_modifications = _cb_post
+    sim._adv = cfg.get("advance")
+    sim._dtn = cfg.get("dtn", 0.0123)
 
 
 def advance(sim, n):
-    if n:
+    """n plain steps, or — for configurations with "advance" — integrate() calls covering about n nominal steps"""
+    if not n:
+        return
+    mode = getattr(sim, "_adv", None)
+    if not mode:
         sim.steps(n)
+        return
+    sgn = -1.0 if sim.dt < 0 else 1.0
+    span = n * getattr(sim, "_dtn", 0.0123) * sgn
+    if mode == "integrate":
+        sim.integrate(sim.t + span)                                  # exact_finish_time omitted (= 1)
+    elif mode == "integrate_eft0":
+        sim.integrate(sim.t + span, exact_finish_time=0)
+    elif mode == "integrate_split":
+        t0 = sim.t
+        sim.integrate(t0 + 0.37 * span, exact_finish_time=0)
+        sim.integrate(t0 + 0.71 * span, exact_finish_time=1)
+        sim.integrate(t0 + span)
+    elif mode == "integrate_reverse":
+        t0 = sim.t
+        sim.integrate(t0 + span)
+        sim.dt = -sim.dt                                             # direction reversal between calls
+        sim.integrate(t0 + 0.5 * span)
+        sim.dt = -sim.dt
+    else:
+        raise ValueError(mode)
 
 
 def apply_ops(sim, ops):
@@ -500,3 +673,99 @@ PRE_OPS = [[], ["remove_last"], ["remove_last", "steps:2"], ["add", "steps:2", "
            ["switchraw:leapfrog", "steps:2"]]
 POST_OPS = [[], ["add"], ["remove_last"], ["mass"], ["dt"], ["add", "add2"], ["remove_last", "add"], ["switch:leapfrog"],
             ["switch:ias15"], ["switch:whfast"], ["reset"], ["sync"], ["add", "mass", "dt"], ["switchraw:leapfrog"], ["switchraw:ias15"]]
+
+
+# ----------------------------------------------------------------------------- cross-cutting dimensions
+def case_dims(cfg, path=None, kind="one"):
+    """names of the cross-cutting dimensions (BUILDERS-deepen.md) a case exercises"""
+    o = cfg.get("o", {})
+    d = ["path:" + str(path)] if path else []
+    d.append("kind:" + kind)
+    role = cfg.get("roles")
+    tp = cfg.get("testparticles")
+    if tp == 1:
+        d.append("roles:testparticle_type0")
+    if tp == 2:
+        d += ["roles:testparticle_type1", "roles:massive_test_particle"]
+    if role:
+        d.append("roles:" + role)
+    v = cfg.get("variational")
+    if v in (1, 2):
+        d.append("variational:order%d_nonzero" % v)
+    if v == 3:
+        d.append("variational:test_particle")
+    if cfg.get("megno"):
+        d.append("variational:megno")
+    if o.get("safe_mode") == 0:
+        d.append("options:safe_mode0")
+    if o.get("keep_unsynchronized") == 1:
+        d.append("options:keep_unsynchronized")
+    if o.get("corrector") or o.get("corrector2"):
+        d.append("options:corrector")
+    if o.get("kernel") or o.get("coordinates"):
+        d.append("options:kernel_or_coordinates")
+    if cfg["integrator"] in ("ias15", "bs", "trace", "mercurius", "janus") and o:
+        d.append("options:adaptive_or_scales_nondefault")
+    if cfg.get("G") is not None or cfg.get("scalars"):
+        d.append("options:G_softening")
+    if cfg.get("dtneg"):
+        d.append("time:dt_negative")
+    adv = cfg.get("advance")
+    if adv:
+        d.append("time:" + adv)
+    if cfg.get("t0") is not None or cfg.get("system") == "shearsheet":
+        d.append("time:t_far_from_zero")
+    for cb in cfg.get("cb", []):
+        d.append("callbacks:" + cb)
+    if cfg.get("collision"):
+        d.append("callbacks:collision_resolve_" + ("callable" if cfg.get("resolve") == "callable" else "named"))
+    if cfg.get("pre") or cfg.get("post"):
+        d.append("histories:structural_ops")
+        if any("switch" in op for op in cfg.get("pre", []) + cfg.get("post", [])):
+            d.append("histories:integrator_switch")
+        if any(op in ("add", "add2", "remove_last", "remove_mid") for op in cfg.get("pre", []) + cfg.get("post", [])):
+            d.append("histories:add_remove")
+        if "sync" in cfg.get("pre", []) + cfg.get("post", []):
+            d.append("histories:explicit_synchronize")
+    if cfg.get("dt0"):
+        d.append("histories:rejected_first_steps")
+    if cfg.get("system") in ("close", "peri", "swarm"):
+        d.append("histories:close_encounter_or_pericentre")
+    if cfg.get("com"):
+        d.append("geometry:moving_com")
+    if cfg.get("system") == "hyper":
+        d.append("geometry:hyperbolic_body")
+    if cfg.get("system") == "shearsheet":
+        d.append("geometry:shear_boundary_ghost_boxes")
+    if cfg.get("system") == "rootboxes":
+        d.append("geometry:nonsquare_rootboxes_face")
+    if cfg.get("boundary"):
+        d.append("geometry:boundary_" + cfg["boundary"])
+    if cfg.get("units"):
+        d.append("python:units")
+    if cfg.get("hashes"):
+        d.append("python:hashes_names")
+    if cfg.get("display"):
+        d.append("python:display_settings")
+    if cfg.get("system") in ("big130", "big1030"):
+        d.append("scale:allocation_boundary_" + cfg["system"][3:])
+    if cfg.get("system") == "n0":
+        d.append("scale:N0")
+    if cfg.get("system") == "n1":
+        d.append("scale:N1")
+    if cfg.get("save_after", 0) > 0 and o.get("safe_mode") == 0:
+        d.append("histories:unsynchronised_save")
+    return d
+
+
+DIMS_COMMON = ["roles:testparticle_type0", "roles:testparticle_type1", "roles:massive_test_particle", "roles:zero_mass_active",
+               "roles:single_active", "roles:massless_and_massive_tp", "variational:order1_nonzero", "variational:order2_nonzero",
+               "variational:test_particle", "variational:megno", "options:safe_mode0", "options:keep_unsynchronized", "options:corrector",
+               "options:kernel_or_coordinates", "options:adaptive_or_scales_nondefault", "options:G_softening", "time:dt_negative",
+               "time:integrate", "time:integrate_eft0", "time:integrate_split", "time:integrate_reverse", "time:t_far_from_zero",
+               "callbacks:additional_forces", "callbacks:additional_forces_vel", "callbacks:heartbeat", "callbacks:pre", "callbacks:post",
+               "callbacks:collision_resolve_named", "callbacks:collision_resolve_callable", "histories:rejected_first_steps",
+               "histories:close_encounter_or_pericentre", "histories:unsynchronised_save", "geometry:moving_com", "geometry:hyperbolic_body",
+               "geometry:shear_boundary_ghost_boxes", "geometry:nonsquare_rootboxes_face", "geometry:boundary_open", "geometry:boundary_periodic",
+               "python:units", "python:hashes_names", "python:display_settings", "scale:allocation_boundary_130", "scale:allocation_boundary_1030",
+               "scale:N0", "scale:N1", "path:buffer", "path:file", "path:copy", "path:pickle"]
